@@ -308,3 +308,4 @@ def check(ctx, rep):
     metarules.attr_spec_writers(ctx, rep, "C02.SPEC")
     metarules.deepcopy_memo(ctx, rep, "C02.DC")
     metarules.for_class_rule(ctx, rep, "C02.META", ("dnc",))
+    metarules.declared_do_not_copy(ctx, rep, "C02.META")
